@@ -61,6 +61,7 @@ type FuncContract struct {
 	at        map[string][]specLine // site label -> assertions
 	atAssume  map[string][]specLine
 	atBefore  map[string][]specLine
+	atSet     map[string][]specLine // site -> `name = expr` updates of user ghost variables
 	takes     map[string]bool
 	condTakes map[string]bool
 	ownPrimitive bool
@@ -301,7 +302,7 @@ func (a *Annotations) parseFile(path, pkg string) error {
 }
 
 func newFuncContract(pkg, key, file string, line int) *FuncContract {
-	return &FuncContract{pkg: pkg, key: key, nullable: map[string]bool{}, loopInv: map[int][]specLine{}, loopMod: map[int][]string{}, loopComplete: map[int]bool{}, at: map[string][]specLine{}, atAssume: map[string][]specLine{}, atBefore: map[string][]specLine{}, takes: map[string]bool{}, condTakes: map[string]bool{}, borrows: map[string]bool{}, file: file, line: line}
+	return &FuncContract{pkg: pkg, key: key, nullable: map[string]bool{}, loopInv: map[int][]specLine{}, loopMod: map[int][]string{}, loopComplete: map[int]bool{}, at: map[string][]specLine{}, atAssume: map[string][]specLine{}, atBefore: map[string][]specLine{}, atSet: map[string][]specLine{}, takes: map[string]bool{}, condTakes: map[string]bool{}, borrows: map[string]bool{}, file: file, line: line}
 }
 
 func splitWord(s string) (string, string) {
@@ -440,6 +441,8 @@ func (a *Annotations) funcClause(cf *FuncContract, word, rest string, sl specLin
 			cf.at[site] = append(cf.at[site], sl)
 		case "assume":
 			cf.atAssume[site] = append(cf.atAssume[site], sl)
+		case "set":
+			cf.atSet[site] = append(cf.atSet[site], sl)
 		default:
 			return fmt.Errorf("at clause %q", kw)
 		}
